@@ -77,42 +77,66 @@ pub fn c02_l6_tables() {
     suites_for_kem!(DhP521HkdfSha512, 0x0012);
 }
 
+/// The RNG of the real-KEM gen_keypair harnesses: hands out the byte pattern 0xA0 ^ position and
+/// counts what it handed out, however the calls are split.
+pub struct PatternRng {
+    pub drawn: usize,
+}
+impl hpke::rand_core::RngCore for PatternRng {
+    fn next_u32(&mut self) -> u32 {
+        let mut b = [0u8; 4];
+        self.fill_bytes(&mut b);
+        u32::from_le_bytes(b)
+    }
+    fn next_u64(&mut self) -> u64 {
+        let mut b = [0u8; 8];
+        self.fill_bytes(&mut b);
+        u64::from_le_bytes(b)
+    }
+    fn fill_bytes(&mut self, dst: &mut [u8]) {
+        let mut i = 0;
+        while i < dst.len() {
+            dst[i] = 0xa0 ^ (self.drawn as u8);
+            self.drawn += 1;
+            i += 1;
+        }
+    }
+}
+impl hpke::rand_core::CryptoRng for PatternRng {}
+pub static mut DRAWN: usize = 0;
+
 macro_rules! real_gen_keypair_draw {
-    ($name:ident, $kem:ty, $nsk:expr) => {
+    ($name:ident, $stub:ident, $kem:ty, $nsk:expr) => {
+        /// replaces `<$kem as Kem>::derive_keypair`: gen_keypair must hand it exactly the Nsk bytes it
+        /// drew from the caller's RNG; what derive_keypair does with them is decided elsewhere
+        /// (c03_l2/l4), so the path ends here
+        pub fn $stub(ikm: &[u8]) -> (<$kem as KemTrait>::PrivateKey, <$kem as KemTrait>::PublicKey) {
+            kani::cover!(true, "derive_keypair reached");
+            assert!(ikm.len() == $nsk, "gen_keypair must derive from exactly Nsk random bytes");
+            let mut i = 0;
+            while i < $nsk {
+                assert!(ikm[i] == 0xa0 ^ (i as u8), "the ikm is not the bytes drawn from the RNG");
+                i += 1;
+            }
+            kani::assume(false);
+            loop {}
+        }
         #[kani::proof]
         #[kani::unwind(70)]
         #[kani::stub(zeroize::optimization_barrier, noop_barrier)]
+        #[kani::stub(<$kem as hpke::kem::Kem>::derive_keypair, $stub)]
         pub fn $name() {
-            // an RNG that checks how many bytes gen_keypair asks for and then stops the run: what
-            // happens afterwards (real SHA-2 / curve arithmetic) is out of reach and not needed
-            struct CountRng;
-            impl hpke::rand_core::RngCore for CountRng {
-                fn next_u32(&mut self) -> u32 {
-                    assert!(false, "gen_keypair must use fill_bytes");
-                    0
-                }
-                fn next_u64(&mut self) -> u64 {
-                    assert!(false, "gen_keypair must use fill_bytes");
-                    0
-                }
-                fn fill_bytes(&mut self, dst: &mut [u8]) {
-                    kani::cover!(true, "fill_bytes reached");
-                    assert!(dst.len() == $nsk, "gen_keypair must draw exactly Nsk bytes");
-                    // cut the run here
-                    kani::assume(false);
-                }
-            }
-            impl hpke::rand_core::CryptoRng for CountRng {}
-            let mut rng = CountRng;
+            let mut rng = PatternRng { drawn: 0 };
             let _ = <$kem as KemTrait>::gen_keypair(&mut rng);
+            assert!(false, "gen_keypair returned without calling derive_keypair");
         }
     };
 }
-//@h name=c03_l3_gen_draw_x25519 tier=quick mode=func prop=C03 also=C02 timeout=600 desc="real DHKEM(X25519): gen_keypair asks the caller's RNG for exactly Nsk = 32 bytes in its first fill_bytes call (the run is cut there with assume(false); a cover witness shows the call is reached)" bounds="real type; the derivation after the draw is covered for the model KEM by c03_l3_gen_keypair_toy"
-real_gen_keypair_draw!(c03_l3_gen_draw_x25519, X25519HkdfSha256, 32);
-//@h name=c03_l3_gen_draw_p256 tier=quick mode=func prop=C03 also=C02 timeout=600 desc="real DHKEM(P-256): gen_keypair draws exactly Nsk = 32 bytes" bounds="real type"
-real_gen_keypair_draw!(c03_l3_gen_draw_p256, DhP256HkdfSha256, 32);
-//@h name=c03_l3_gen_draw_p384 tier=quick mode=func prop=C03 also=C02 timeout=600 desc="real DHKEM(P-384): gen_keypair draws exactly Nsk = 48 bytes" bounds="real type"
-real_gen_keypair_draw!(c03_l3_gen_draw_p384, DhP384HkdfSha384, 48);
-//@h name=c03_l3_gen_draw_p521 tier=quick mode=func prop=C03 also=C02 timeout=600 desc="real DHKEM(P-521): gen_keypair draws exactly Nsk = 66 bytes (not Nsecret = 64)" bounds="real type"
-real_gen_keypair_draw!(c03_l3_gen_draw_p521, DhP521HkdfSha512, 66);
+//@h name=c03_l3_gen_draw_x25519 tier=quick mode=func prop=C03 also=C02 timeout=600 replay=log desc="real DHKEM(X25519): gen_keypair hands derive_keypair exactly the Nsk = 32 bytes it drew from the caller's RNG, however the draws are split (derive_keypair is replaced by an assertion point that ends the path; a cover witness shows it is reached)" bounds="real type; the derivation after the draw is covered for the model KEM by c03_l3_gen_keypair_toy"
+real_gen_keypair_draw!(c03_l3_gen_draw_x25519, stub_derive_x25519, X25519HkdfSha256, 32);
+//@h name=c03_l3_gen_draw_p256 tier=quick mode=func prop=C03 also=C02 timeout=600 replay=log desc="real DHKEM(P-256): gen_keypair derives from exactly the Nsk = 32 bytes drawn" bounds="real type"
+real_gen_keypair_draw!(c03_l3_gen_draw_p256, stub_derive_p256, DhP256HkdfSha256, 32);
+//@h name=c03_l3_gen_draw_p384 tier=quick mode=func prop=C03 also=C02 timeout=600 replay=log desc="real DHKEM(P-384): gen_keypair derives from exactly the Nsk = 48 bytes drawn" bounds="real type"
+real_gen_keypair_draw!(c03_l3_gen_draw_p384, stub_derive_p384, DhP384HkdfSha384, 48);
+//@h name=c03_l3_gen_draw_p521 tier=quick mode=func prop=C03 also=C02 timeout=600 replay=log desc="real DHKEM(P-521): gen_keypair derives from exactly the Nsk = 66 bytes drawn (not Nsecret = 64)" bounds="real type"
+real_gen_keypair_draw!(c03_l3_gen_draw_p521, stub_derive_p521, DhP521HkdfSha512, 66);
